@@ -279,6 +279,7 @@ Lemma wf_ext_parts Ld : wf_loadedb Ld = true ->
 Proof.
   unfold wf_loadedb, wf_loaded_ext. intros H.
   apply andb_true_iff in H. destruct H as (_ & H).
+  apply andb_true_iff in H. destruct H as (H & _).
   apply andb_true_iff in H. destruct H as (H & H4).
   apply andb_true_iff in H. destruct H as (H & H3).
   apply andb_true_iff in H. destruct H as (H1 & H2).
